@@ -10,6 +10,9 @@
 //
 // Quadrature is stubbed (gsl_integration_qng interposed from this executable) so that an initialise costs microseconds.
 #include <cmath>
+#include <filesystem>
+#include <fstream>
+#include <sstream>
 #include <iostream>
 #include <memory>
 #include <unistd.h>
@@ -274,6 +277,60 @@ static void eval(Ctx & cx, const std::vector<int> & seq)
   if (rej && ok && cx.rep.samples.size() < 5 && (cx.rep.nontrivial.size() % 7) == 1) cx.rep.sample("{\"calls\":" + jstr(seq_str(seq)) + "}");
 }
 
+// ---- (a'') failure recovery through the optional gA data sets (modes 21-24): the data file is external input, and an initialize() that fails INSIDE
+// the table loader (a truncated tab_ocdf.data) must leave the generator as usable as any other failed initialisation: once the file is whole again
+// the SAME object - re-initialised as it is, after reset() + re-configuration, or switched to another gA mode - yields exactly the events of a newly
+// constructed generator.  The data set is a synthetic one written by the repository's own encoder (as in C14); the cut runs over every line start
+// and a stride of byte offsets.
+static void ga_recovery_pass(Ctx & cx, int shard, int nsh, uint64_t seed)
+{
+  namespace fs = std::filesystem;
+  const char * src = getenv("VERIF_GA_BASE"); if (!src || !*src) { cx.rep.count("ga_recovery_skipped_no_dataset"); return; }
+  std::string base = std::string(getenv("VERIF_SCRATCH") ? getenv("VERIF_SCRATCH") : "/dev/shm") + "/vf-c09-ga-" + std::to_string(getpid());
+  std::error_code ec; fs::remove_all(base, ec); fs::create_directories(base); fs::copy(src, base, fs::copy_options::recursive, ec);
+  if (ec) { cx.rep.count("ga_recovery_skipped_copy_failed"); return; }
+  setenv("BXDECAY0_DBD_GA_DATA_DIR", base.c_str(), 1);
+  auto slurp = [](const std::string & p) { std::ifstream f(p, std::ios::binary); std::ostringstream o; o << f.rdbuf(); return o.str(); };
+  auto spit = [](const std::string & p, const std::string & d) { std::ofstream f(p, std::ios::binary | std::ios::trunc); f << d; };
+  static const char * PROC[] = {"g0", "g2", "g22", "g4"};
+  auto conf = [](G & g, int mode) { g.set_decay_category(G::DECAY_CATEGORY_DBD); g.set_decay_isotope("Mo100"); g.set_decay_dbd_level(0); g.set_decay_dbd_mode((bxdecay0::dbd_mode_type)mode); };
+  auto shots = [](G & g, std::vector<double> & v) { v.clear(); for (int k = 0; k < 12; k++) { bxdecay0::event e; Tape t; t.seed = mix(4242, k); TapeRandom r(t, 0, 100000); g.shoot(r, e); v.push_back((double)r.pos); for (auto & p : e.get_particles()) { v.push_back(p.get_px()); v.push_back(p.get_py()); v.push_back(p.get_pz()); v.push_back(p.get_time()); } } };
+  uint64_t item = 0;
+  for (int pm = 0; pm < 4; pm++) {
+    int mode = 21 + pm; std::string file = base + "/data/dbd_gA/v1.0/Mo100/" + PROC[pm] + "/tab_ocdf.data"; std::string good = slurp(file);
+    if (good.size() < 100) { cx.rep.count("ga_recovery_skipped_no_file"); continue; }
+    std::vector<double> want; { G f; conf(f, mode); Tape it; it.seed = 5; TapeRandom ri(it, 0, 100000); f.initialize(ri); shots(f, want); }
+    std::vector<size_t> cuts; for (size_t i = 0; i < good.size(); i++) if (i == 0 || good[i - 1] == '\n' || i % 23 == (seed % 23)) cuts.push_back(i);
+    for (size_t cut : cuts) for (int variant = 0; variant < 3; variant++) {
+      if ((item++ % nsh) != (uint64_t)shard) continue;
+      cx.rep.evaluations++;
+      spit(file, good.substr(0, cut));
+      G g; conf(g, mode); bool refused = false;
+      { Tape it; it.seed = 5; TapeRandom ri(it, 0, 100000); try { g.initialize(ri); } catch (std::exception &) { refused = true; } }
+      spit(file, good);
+      if (!refused) { cx.rep.label("ga-recovery:truncated-file-still-loads"); continue; }   // a cut that leaves a loadable file is C15's business
+      std::string what; bool ok = true; std::vector<double> got;
+      try {
+        if (g.is_initialized()) { ok = false; what = "is_initialized() is true after the refused initialize()"; }
+        if (ok && variant == 1) { g.reset(); conf(g, mode); }
+        if (ok && variant == 2) { int other = 21 + (pm + 1) % 4; g.set_decay_dbd_mode((bxdecay0::dbd_mode_type)other); Tape it; it.seed = 5; TapeRandom ri(it, 0, 100000); g.initialize(ri); bxdecay0::event e; Tape t; t.seed = 9; TapeRandom r(t, 0, 100000); g.shoot(r, e); g.reset(); conf(g, mode); }
+        if (ok) { Tape it; it.seed = 5; TapeRandom ri(it, 0, 100000); g.initialize(ri); shots(g, got); }
+      } catch (std::exception & e) { ok = false; what = std::string("the retry raised '") + e.what() + "'"; }
+      if (ok && (got.size() != want.size() || memcmp(got.data(), want.data(), got.size() * sizeof(double)))) { ok = false; what = "the events after the retry differ from a newly constructed generator's on the same deviates"; }
+      static const char * VN[] = {"initialize again", "reset + re-configure + initialize", "another gA mode in between, then reset + re-configure + initialize"};
+      if (ok) { cx.rep.nt("ga-recovery|" + std::to_string(mode) + "|" + std::to_string(variant) + "|" + std::to_string(cut * 16 / good.size())); cx.rep.label(std::string("ga-recovery:") + VN[variant]); continue; }
+      std::string sig = std::string("C09|ga-failed-initialize-not-recovered|mode ") + std::to_string(mode) + " | " + VN[variant];
+      std::string kid = cx.known.match("C09", sig); if (!kid.empty()) { cx.rep.known[kid]++; continue; }
+      if (cx.seen[sig]++) continue;
+      std::string msg = "Mo100 mode " + std::to_string(mode) + ": initialize() refused a tab_ocdf.data cut after " + std::to_string(cut) + " of " + std::to_string(good.size()) + " bytes; with the whole file back in place (" + VN[variant] + ") " + what;
+      std::string path = cx.replaydir + "/C09-" + hash_name(sig) + ".json";
+      std::ofstream(path) << "{\"property\":\"C09\",\"ga_recovery\":{\"mode\":" << mode << ",\"cut\":" << cut << ",\"variant\":" << variant << "},\"sig\":" << jstr(sig) << ",\"msg\":" << jstr(msg) << "}\n";
+      cx.rep.failures.push_back({sig, msg, path});
+    }
+  }
+  unsetenv("BXDECAY0_DBD_GA_DATA_DIR"); fs::remove_all(base, ec);
+}
+
 int main(int argc, char ** argv)
 {
   Args a(argc, argv);
@@ -285,7 +342,9 @@ int main(int argc, char ** argv)
   FILE * res = fdopen(out_fd, "w");
   int shard = a.i("shard", 0), nsh = a.i("nshards", 1); int maxlen = a.i("maxlen", 4); long long rc_cases = a.i("rc_cases", 300);
   if (a.has("replay")) {
-    JV j = jload(a.s("replay")); std::vector<int> seq; for (auto & e : j.at("sequence").arr) seq.push_back((int)e.num);
+    JV j = jload(a.s("replay"));
+    if (j.has("ga_recovery")) { ga_recovery_pass(cx, 0, 1, 1); for (auto & f : cx.rep.failures) dprintf(out_fd, "REPLAY-FAIL class=ga-recovery %s\n", f.msg.c_str()); if (cx.rep.failures.empty()) dprintf(out_fd, "REPLAY-PASS\n"); return cx.rep.failures.empty() ? 0 : 1; }
+    std::vector<int> seq; for (auto & e : j.at("sequence").arr) seq.push_back((int)e.num);
     PFail f; Stats st; bool r1, r2; bool good = run_sequence(seq, f, st, r1, r2);
     dprintf(out_fd, good ? "REPLAY-PASS\n" : "REPLAY-FAIL class=%s %s\n", f.cls.c_str(), f.msg.c_str()); return good ? 0 : 1;
   }
@@ -315,9 +374,13 @@ int main(int argc, char ** argv)
       }
       pres.push_back(Pre{{CAT_DBD, ISO_MO100, LEV_0, MODE_1}, ISO_MO100, LEV_0, MODE_1});
       pres.push_back(Pre{{CAT_BKG, ISO_CO60}, ISO_CO60, -1, -1});
+      // the same with one or two post-generation operations registered BEFORE the refused initialisation (what an initialisation attempt derives from
+      // the registered operations must not survive its failure); the operation sits after the category so that pr.calls[0] stays the category
+      { std::vector<Pre> withops; for (auto & pr : pres) for (int nops = 1; nops <= 2; nops++) { if (pr.calls.size() == 5) continue; Pre q = pr;   /* (the windowed configurations are left without operations: cost) */ for (int k = 0; k < nops; k++) q.calls.insert(q.calls.begin() + 1, ADD_OP); withops.push_back(q); }
+        for (auto & q : withops) pres.push_back(q); }
       uint64_t fam = 0, famrun = 0;
       for (auto & pr : pres) {
-        bool dbd = pr.calls[0] == CAT_DBD; int wcall = (dbd && pr.calls.size() == 5) ? pr.calls[4] : (int)ESUM_NONE;
+        bool dbd = pr.calls[0] == CAT_DBD; int wcall = (int)ESUM_NONE; for (int cc : pr.calls) if (cc == ESUM_OK || cc == ESUM_LO || cc == ESUM_HI) wcall = cc;
         std::vector<std::pair<int, int>> breakers = {{ISO_UNKNOWN, pr.iso}};
         if (dbd) { breakers.push_back({LEV_9, pr.lev}); breakers.push_back({MODE_21, pr.mode}); breakers.push_back({CAT_BKG, CAT_DBD}); breakers.push_back({ESUM_INV, wcall}); breakers.push_back({ESUM_ABOVE, wcall}); }
         for (auto & br : breakers) {
@@ -359,6 +422,7 @@ int main(int argc, char ** argv)
     cx.rep.counters["rapidcheck_sequences"] = rc_n; cx.rep.counters["rapidcheck_nontrivial"] = rc_nt;
     cx.rep.counters["steps"] = cx.st.steps; cx.rep.counters["rejected_calls"] = cx.st.rejected_calls; cx.rep.counters["successful_inits"] = cx.st.ok_inits;
     cx.rep.counters["failed_inits"] = cx.st.failed_inits; cx.rep.counters["shoots_compared_with_fresh"] = cx.st.shoots; cx.rep.counters["resets"] = cx.st.resets;
+    ga_recovery_pass(cx, shard, nsh, a.i("seed", 1));
   } catch (std::exception & e) { fprintf(res, "HARNESS-ERROR %s\n", e.what()); fflush(res); return 2; }
   cx.rep.write(a.s("out", "report.json"));
   fprintf(res, "done evaluations=%llu failures=%zu\n", (unsigned long long)cx.rep.evaluations, cx.rep.failures.size()); fflush(res);
